@@ -102,7 +102,7 @@ def run_history(rep, structured, rng, steps, allow_kill, model_ok, corr):
         pl = None
         if kind != "none":
             o0 = h2.run_impl(s)
-            order, ops, plans = faults.plans_for(o0, s, {"sig": ("sig",), "fail": ("fail",), "kill": ("kill",),
+            order, ops, plans = faults.plans_for(o0, s, {"sig": ("sig", "sig2"), "fail": ("fail",), "kill": ("kill",),
                                                          "faillock": ("faillock",)}[kind])
             plans = [p for p in plans if p.op["kind"] not in ("cfg", "lockstat", "lockread", "disc", "other", "src_open")
                      or kind == "sig" and p.op["kind"] == "src_open"]
